@@ -7,13 +7,14 @@
    then fs; an fs passed together with sps and R is ignored; wavelength falls back to its default
    on every call that does not pass it. *)
 EXTENDS Integers, Sequences, FiniteSets, TLC
-CONSTANTS SpsVals, RVals, FsVals, NVals, WlVals, Keys     \* argument domains (plain values)
+CONSTANTS SpsVals, RVals, FsVals, NVals, WlVals, Keys,    \* argument domains (plain values)
+          DefaultR                                         \* the default slot rate 1 GHz in the rate unit of the instance: 1000 (unit MHz),
+                                                           \* 3000 (unit 1/3 MHz: then no requested rate is a whole number of Hz)
 
 VARIABLES sps, R, fs, wl, N, grid, custom, last
 vars == <<sps, R, fs, wl, N, grid, custom, last>>
 
 DefaultSps == 16
-DefaultR == 1000
 DefaultWl == 1550
 None == <<>>
 Some(v) == <<v>>
